@@ -18,6 +18,7 @@ import SqiGen.KeccakParams
 import SqiProofs.SpongeMain
 import SqiProofs.Challenge
 import SqiProofs.C20Kat
+import SqiProofs.DrbgRefine
 
 namespace SqiProps.C20
 open SqiModel SqiModel.Sponge
@@ -185,6 +186,32 @@ theorem randombytes_deterministic (E : List UInt8 → List UInt8 → List UInt8)
     (pers pers' : Option (List UInt8)) (reqs reqs' : List Nat) (h1 : seed = seed') (h2 : pers = pers') (h3 : reqs = reqs') :
     Drbg.Model.run E (Drbg.Model.init E seed pers) reqs = Drbg.Model.run E (Drbg.Model.init E seed' pers') reqs' := by
   rw [h1, h2, h3]
+
+/-- `randombytes` refines SP 800-90A CTR_DRBG_Generate (V an integer mod 2^128, no additional input, update with
+    0^384): the bytes returned are the specification's, the new (Key, V, reseed_counter) is the specification's, and the
+    invariant |V| = 16 is kept.  The bytewise increment-with-carry of the C loop is `+1 mod 2^128` (`incV_eq`). -/
+theorem randombytes_eq_spec (E : List UInt8 → List UInt8 → List UInt8) (hE : ∀ k v, (E k v).length = 16)
+    (st : Drbg.Model.St) (hv : st.v.length = 16) (n : Nat) :
+    (Drbg.Model.randombytes E st n).1 = (Drbg.Spec.generate E (Drbg.abs st) n).1 ∧
+    Drbg.abs (Drbg.Model.randombytes E st n).2 = (Drbg.Spec.generate E (Drbg.abs st) n).2 ∧
+    (Drbg.Model.randombytes E st n).2.v.length = 16 :=
+  SqiProofs.Drbg.randombytes_refines E hE st hv n
+
+/-- `randombytes_init(entropy, NULL, ·)` is CTR_DRBG_Instantiate without df and with empty personalization string -/
+theorem randombytes_init_eq_spec (E : List UInt8 → List UInt8 → List UInt8) (hE : ∀ k v, (E k v).length = 16)
+    (entropy : List UInt8) : Drbg.abs (Drbg.Model.init E entropy none) = Drbg.Spec.instantiate E entropy [] :=
+  SqiProofs.Drbg.init_refines E hE entropy
+
+/-- every request history of the model is the specification's history (induction over the request list) -/
+theorem randombytes_history_eq_spec (E : List UInt8 → List UInt8 → List UInt8) (hE : ∀ k v, (E k v).length = 16)
+    (st : Drbg.Model.St) (hv : st.v.length = 16) (reqs : List Nat) :
+    (Drbg.Model.run E st reqs).1 = (SqiProofs.Drbg.specRun E (Drbg.abs st) reqs).1 ∧
+    Drbg.abs (Drbg.Model.run E st reqs).2 = (SqiProofs.Drbg.specRun E (Drbg.abs st) reqs).2 :=
+  SqiProofs.Drbg.run_refines E hE st hv reqs
+
+/-- non-vacuity of `hv`: the state right after `randombytes_init` has |V| = 16 whenever the cipher returns 16-byte blocks
+    (here: E constant) -/
+example : (Drbg.Model.init (fun _ _ => List.replicate 16 7) (List.replicate 48 1) none).v.length = 16 := by decide
 
 /-- the block cipher specification meets the hypothesis `hE` on a concrete instance and reproduces FIPS 197 C.3 -/
 example : (Aes.aes256 ((List.range 32).map (·.toUInt8)) ((List.range 16).map (fun i => (17 * i).toUInt8))).length = 16 := by
